@@ -32,16 +32,44 @@ Theorem C19_append : forall l t v,
   (In t (map fst l) -> nl_get (nl_append l t v) t = nl_get l t).
 Proof. exact nl_append_spec. Qed.
 
-(* histories: after any sequence of calls the state is the fold of the steps (Count = its length,
-   First = its head by definition of nl_count / nl_first) and a Get issued after any history
-   answers with the first matching entry of the state reached *)
+(* histories: after any sequence of calls the state is the fold of the steps and a Get issued after any history
+   answers with the first matching entry of the state reached.  The trace of a history (snd of nl_run) holds the
+   answer of every Get, Count and First in it: AGet / ACount / AFirst (builder b57; before, only the Get answers were
+   in the trace, as bare option values) *)
 Theorem C19_hist_state : forall l ops, fst (nl_run l ops) = fold_left nl_step ops l.
 Proof. exact nl_run_state. Qed.
 
 Theorem C19_hist_get : forall l ops t,
   snd (nl_run l (ops ++ [OGet t])) =
-  snd (nl_run l ops) ++ [option_map snd (find (tag_is t) (fold_left nl_step ops l))].
+  snd (nl_run l ops) ++ [AGet (option_map snd (find (tag_is t) (fold_left nl_step ops l)))].
 Proof. exact nl_run_get_last. Qed.
+
+(* Count is the number of entries: a Count issued after any history from any start list answers the length of the
+   state reached *)
+Theorem C19_hist_count : forall l ops,
+  snd (nl_run l (ops ++ [OCount])) = snd (nl_run l ops) ++ [ACount (length (fold_left nl_step ops l))].
+Proof. exact nl_run_count_last. Qed.
+
+(* First is the first entry: a First issued after any history answers the head of the state reached; on the empty
+   list it answers LangRefValue{} - the empty tag with the nil text - as the code does (no panic) *)
+Theorem C19_hist_first : forall l ops,
+  snd (nl_run l (ops ++ [OFirst])) = snd (nl_run l ops) ++ [AFirst (hd ([], []) (fold_left nl_step ops l))].
+Proof. exact nl_run_first_last. Qed.
+
+(* the answers issued in the middle of a history are those of the state reached there *)
+Theorem C19_hist_split : forall l ops1 ops2,
+  snd (nl_run l (ops1 ++ ops2)) = snd (nl_run l ops1) ++ snd (nl_run (fold_left nl_step ops1 l) ops2).
+Proof. exact nl_run_snd_app. Qed.
+
+(* Count and First never change anything: wherever one is issued in a history, the state it is issued in, the final
+   state and every other answer are what they are without it *)
+Theorem C19_hist_observers_pure : forall l ops1 o ops2, o = OCount \/ o = OFirst ->
+  nl_step (fold_left nl_step ops1 l) o = fold_left nl_step ops1 l /\
+  fst (nl_run l (ops1 ++ o :: ops2)) = fst (nl_run l (ops1 ++ ops2)) /\
+  snd (nl_run l (ops1 ++ o :: ops2)) =
+    snd (nl_run l ops1) ++ nl_obs (fold_left nl_step ops1 l) o ++ snd (nl_run (fold_left nl_step ops1 l) ops2) /\
+  snd (nl_run l (ops1 ++ ops2)) = snd (nl_run l ops1) ++ snd (nl_run (fold_left nl_step ops1 l) ops2).
+Proof. exact nl_observers_pure. Qed.
 
 (* two lists without repeated tags compare equal exactly when they hold the same pairs *)
 Theorem C19_equal : forall a b, nodup_tags a -> nodup_tags b -> (nl_equals a b = true <-> Permutation a b).
@@ -60,8 +88,18 @@ Qed.
 Example C19_example :
   nodup_tags [(B "-", B "a"); (B "en", B "b")] /\
   nl_run [] [OSet (B "en") (B "x"); OAppend (B "fr") (B "y"); OSet (B "en") (B "z"); OGet (B "en"); OGet (B "de")]
-  = ([(B "en", B "z"); (B "fr", B "y")], [Some (B "z"); None]).
+  = ([(B "en", B "z"); (B "fr", B "y")], [AGet (Some (B "z")); AGet None]).
 Proof. split; [apply nodup_tagsb_spec; vm_compute; reflexivity|vm_compute; reflexivity]. Qed.
+
+(* a history with Count and First in it: First of the empty list, Count growing with a Set of a new tag and not with a
+   Set of an old one, First staying the first entry while its text is replaced *)
+Example C19_observers_example :
+  nl_run [] [OFirst; OCount; OSet (B "en") (B "x"); OCount; OAppend (B "fr") (B "y"); OFirst; OSet (B "en") (B "z");
+             OCount; OFirst; OGet (B "fr"); OAdd (B "en") (B "w"); OCount; OFirst]
+  = ([(B "en", B "z"); (B "fr", B "y"); (B "en", B "w")],
+     [AFirst ([], []); ACount 0; ACount 1; AFirst (B "en", B "x"); ACount 2; AFirst (B "en", B "z"); AGet (Some (B "y"));
+      ACount 3; AFirst (B "en", B "z")]).
+Proof. vm_compute; reflexivity. Qed.
 
 (* ---- function bodies under the translator: generated-table tie (b45) ---- *)
 (* Model/Nlv.v was hand-written after the source and tied to it by the correspondence cases only.  Now Gen/NlvT.v is
@@ -112,7 +150,9 @@ Theorem C19_lrv_equals_table_tie : forall tbl, nlv_table_ok tbl = true -> forall
 Proof. exact lrv_equals_tie. Qed.
 
 (* histories: nl_run - the function the correspondence cases run against the code - with every call going through
-   the table is nl_run, for every history from every state *)
+   the table is nl_run, for every history from every state.  Since b57 the histories hold Count and First: their
+   answers in the trace of nl_run_t come from the generated bodies of Count and First, and the state after a Count
+   is the one the body of Count leaves behind its pointer receiver *)
 Theorem C19_hist_table_tie : forall tbl, nlv_table_ok tbl = true -> forall ops l,
   nl_run_t tbl l ops = Ok (nl_run l ops).
 Proof. exact nl_run_tie. Qed.
@@ -154,7 +194,9 @@ Proof. exact (C19_equals_table_tie ItemsEqGen.gen_itemseq_fns C19_equals_entry).
 Example C19_nlv_gen_example :
   length gen_nlv_fns = 7 /\
   nl_run_t gen_nlv_fns [] [OSet (B "en") (B "x"); OAppend (B "fr") (B "y"); OSet (B "en") (B "z"); OGet (B "en"); OGet (B "de")]
-    = Ok ([(B "en", B "z"); (B "fr", B "y")], [Some (B "z"); None]) /\
+    = Ok ([(B "en", B "z"); (B "fr", B "y")], [AGet (Some (B "z")); AGet None]) /\
+  nl_run_t gen_nlv_fns [] [OFirst; OSet (B "en") (B "x"); OCount; OAppend (B "fr") (B "y"); OSet (B "en") (B "z"); OCount; OFirst]
+    = Ok ([(B "en", B "z"); (B "fr", B "y")], [AFirst ([], []); ACount 1; ACount 2; AFirst (B "en", B "z")]) /\
   nlv_count_t gen_nlv_fns (pnl [(B "en", B "z"); (B "fr", B "y")]) = Ok ([GvInt 2], Some (pnl [(B "en", B "z"); (B "fr", B "y")])) /\
   nlv_first_t gen_nlv_fns [(B "en", B "z"); (B "fr", B "y")] = Ok ([GvLrv (B "en", B "z")], Some (GvNl [(B "en", B "z"); (B "fr", B "y")])) /\
   lrv_equals_t gen_nlv_fns (B "en", B "z") (B "en", B "y") = Ok ([GvBool false], Some (GvLrv (B "en", B "z"))).
